@@ -601,3 +601,452 @@ async fn run_c10_async(plan: C10Plan, sched: Sched, record: bool) -> Outcome {
     drop(p);
     o
 }
+
+// =================================================================== C13 (bridge)
+
+use crate::scriptio::*;
+
+#[derive(Serialize, Deserialize, Clone, Debug)]
+pub struct C13Plan {
+    pub ep: EpCfg,
+    pub link: LinkCfg,
+    pub weights: [u32; NCLS],
+    /// window the raw peer advertises = credit of the bridge's mux-side writer
+    pub peer_rwnd: u32,
+    pub rs: Vec<R>,
+    pub ws: Vec<Wr>,
+    pub fl: Vec<Fl>,
+    pub sh: Vec<Fl>,
+    /// sizes of the Push frames the peer sends (credit permitting)
+    pub pushes: Vec<usize>,
+    /// 0 Finish, 1 Reset, 2 nothing
+    pub peer_end: u8,
+    /// 0 acknowledge every frame, 1 never, 2 one batch acknowledgement after everything went quiet
+    pub ack_mode: u8,
+    pub peer_yields: usize,
+    /// use the BufReader-wrapping constructor with this capacity instead of handing the script in directly
+    pub bufreader: Option<usize>,
+}
+fn local_byte(i: u64) -> u8 {
+    pbyte(13, 0, i)
+}
+const ID_BRG: u32 = 0x0b13;
+
+pub fn run_c13(plan: &C13Plan, sched: &Sched, record: bool) -> Outcome {
+    block_on(run_c13_async(plan.clone(), sched.clone(), record))
+}
+async fn run_c13_async(plan: C13Plan, sched: Sched, record: bool) -> Outcome {
+    let no_ack = Rc::new(RefCell::new(if plan.ack_mode == 0 { vec![] } else { vec![ID_BRG] }));
+    let mut s = setup(&plan.ep, plan.ep.options(), &plan.link, plan.weights, &sched, record, RxPolicy { ack_pushes: true, ack_req_connects: None }, no_ack);
+    let (io, log) = ScriptIo::new(plan.rs.clone(), plan.ws.clone(), plan.fl.clone(), plan.sh.clone(), local_byte);
+    let result: Rc<RefCell<Option<(u64, Result<(usize, usize), std::io::ErrorKind>)>>> = Default::default();
+    {
+        let (m, res, seq, bufr) = (s.mux.clone(), result.clone(), s.seq.clone(), plan.bufreader);
+        s.sim.spawn("bridge", CLS_OTHER, async move {
+            let Ok(st) = m.accept_stream_channel().await else { return };
+            let r = match bufr {
+                Some(cap) => st.into_copy_bidirectional_with_buf(tokio::io::BufReader::with_capacity(cap.max(1), io)).await,
+                None => st.into_copy_bidirectional_with_buf(io).await,
+            };
+            *res.borrow_mut() = Some((seq.tick(), r.map_err(|e| e.kind())));
+        });
+    }
+    let peer_sent: Rc<RefCell<Vec<u8>>> = Default::default();
+    let peer_end_at: Rc<RefCell<Option<u64>>> = Default::default();
+    let batch_acked: Rc<RefCell<u32>> = Default::default();
+    {
+        let (raw, peer, plan2, ps, pe, seq, ba) = (s.raw.clone(), s.peer.clone(), plan.clone(), peer_sent.clone(), peer_end_at.clone(), s.seq.clone(), batch_acked.clone());
+        s.sim.spawn("peer-tx", CLS_OTHER, async move {
+            raw.borrow_mut().send(RFrame::Connect { id: ID_BRG, rwnd: plan2.peer_rwnd.max(1), port: 1, host: b"brg".to_vec() });
+            if !wait_until(&peer, |p| p.acked.contains_key(&ID_BRG)).await {
+                return;
+            }
+            let mut off = 0u64;
+            let mut starved = false;
+            for n in &plan2.pushes {
+                if !wait_until(&peer, |p| p.credit.get(&ID_BRG).copied().unwrap_or(0) > 0 || p.resets.contains_key(&ID_BRG)).await {
+                    starved = true;
+                    break;
+                }
+                if peer.borrow().resets.contains_key(&ID_BRG) {
+                    starved = true;
+                    break;
+                }
+                *peer.borrow_mut().credit.get_mut(&ID_BRG).unwrap() -= 1;
+                let d: Vec<u8> = (0..(*n).max(1) as u64).map(|i| pbyte(13, 1, off + i)).collect();
+                off += d.len() as u64;
+                ps.borrow_mut().extend(&d);
+                raw.borrow_mut().send(RFrame::Push { id: ID_BRG, data: d });
+                sim_yields(plan2.peer_yields).await;
+            }
+            if !starved {
+                match plan2.peer_end {
+                    0 => {
+                        raw.borrow_mut().send(RFrame::Finish { id: ID_BRG });
+                        *pe.borrow_mut() = Some(seq.tick());
+                    }
+                    1 => {
+                        raw.borrow_mut().send(RFrame::Reset { id: ID_BRG });
+                        *pe.borrow_mut() = Some(seq.tick());
+                    }
+                    _ => {}
+                }
+            }
+            if plan2.ack_mode == 2 {
+                // acknowledgements arrive late, in batches, each time the system has gone quiet
+                for _ in 0..6 {
+                    tokio::time::sleep(Duration::from_secs(1000)).await;
+                    let n = peer.borrow().rx_bytes.get(&ID_BRG).map(|_| ()).map(|_| peer.borrow().got.iter().filter(|(_, w)| matches!(w, Wire::Frame(RFrame::Push { id, .. }) if *id == ID_BRG)).count() as u32).unwrap_or(0);
+                    let already = *ba.borrow();
+                    if n > already {
+                        *ba.borrow_mut() = n;
+                        raw.borrow_mut().send(RFrame::Ack { id: ID_BRG, n: n - already });
+                    } else {
+                        break;
+                    }
+                }
+            }
+        });
+    }
+    let end = s.sim.run(3_000_000, crate::duo::HORIZON).await;
+    let mut o = Outcome { digest: s.sim.digest.0 ^ s.seq.now(), steps: s.sim.steps, decisions: s.sim.decisions.take().unwrap_or_default(), ..Default::default() };
+    if end != End::Quiescent {
+        o.violate("HARNESS:step-budget", "no quiescence".into());
+        return o;
+    }
+    let p = s.peer.borrow();
+    let l = log.borrow();
+    let res = result.borrow().clone();
+    let sent_by_peer = peer_sent.borrow();
+    let got_from_a: Vec<u8> = p.rx_bytes.get(&ID_BRG).cloned().unwrap_or_default();
+    let pushes_from_a = p.got.iter().filter(|(_, w)| matches!(w, Wire::Frame(RFrame::Push { id, .. }) if *id == ID_BRG)).count() as u64;
+    let finishes = p.got.iter().filter(|(_, w)| matches!(w, Wire::Frame(RFrame::Finish { id }) if *id == ID_BRG)).count();
+    let a_reset = p.resets.get(&ID_BRG).copied().unwrap_or(0);
+    let peer_reset = plan.peer_end == 1 && peer_end_at.borrow().is_some();
+    let peer_finished = plan.peer_end == 0 && peer_end_at.borrow().is_some();
+    let done = res.is_some();
+    let desc = format!(
+        "res={:?} written={}/{} sent={}/{} pushes_from_a={pushes_from_a} finishes={finishes} a_reset={a_reset} local: eof={} rerr={} werr={} ferr={} serr={} shutdown_calls={} done={} events={:?} task_end={:?}",
+        res.as_ref().map(|r| r.1),
+        l.written.len(),
+        sent_by_peer.len(),
+        got_from_a.len(),
+        l.produced.len(),
+        l.eof_returned,
+        l.read_err,
+        l.write_err,
+        l.flush_err,
+        l.shutdown_err,
+        l.shutdown_calls,
+        l.shutdown_done,
+        l.events,
+        s.task_end.borrow().as_ref().map(|t| t.1.clone())
+    );
+    // ---- faithful relay, in order, exactly once
+    if !sent_by_peer.starts_with(&l.written) {
+        o.violate("C13:mux-to-local-corrupt", format!("bytes written to the local side are not a prefix of what the peer pushed; {desc}"));
+    }
+    if !l.produced.starts_with(&got_from_a) || got_from_a.iter().enumerate().any(|(i, b)| *b != local_byte(i as u64)) {
+        o.violate("C13:local-to-mux-corrupt", format!("bytes pushed to the peer are not a prefix of what the local side produced; {desc}"));
+    }
+    // ---- one unit of credit per frame sent
+    let granted = plan.peer_rwnd.max(1) as u64
+        + match plan.ack_mode {
+            0 => pushes_from_a,
+            1 => 0,
+            _ => *batch_acked.borrow() as u64,
+        };
+    if pushes_from_a > granted {
+        o.violate("C13:credit", format!("the bridge sent {pushes_from_a} Push frames with only {granted} units of credit ever granted; {desc}"));
+    }
+    if a_reset > 0 && !peer_reset && res.is_none() {
+        o.violate("C13:unexpected-reset", format!("the endpoint reset the bridged flow although the bridge is still running; {desc}"));
+    }
+    // ---- completion
+    if let Some((_, Ok((r, w)))) = &res {
+        if *r != l.written.len() || *w != got_from_a.len() || *w != l.produced.len() {
+            o.violate("C13:byte-counts", format!("the bridge completed with ({r}, {w}) but {} bytes were written locally and {} bytes of {} produced reached the peer; {desc}", l.written.len(), got_from_a.len(), l.produced.len()));
+        }
+        if finishes == 0 && !peer_reset {
+            o.violate("C13:no-finish", format!("the bridge completed Ok without sending Finish; {desc}"));
+        }
+        if !l.shutdown_done {
+            o.violate("C13:no-local-shutdown", format!("the bridge completed Ok without shutting the local side down; {desc}"));
+        }
+        if l.written.len() != sent_by_peer.len() && !peer_reset {
+            o.violate("C13:data-missing", format!("the bridge completed Ok but {} of {} bytes pushed by the peer were written locally; {desc}", l.written.len(), sent_by_peer.len()));
+        }
+        if !l.eof_returned {
+            o.violate("C13:completed-without-local-eof", format!("the bridge completed Ok although the local side never reached end-of-stream; {desc}"));
+        }
+        if !(peer_finished || peer_reset) {
+            o.violate("C13:completed-without-peer-end", format!("the bridge completed Ok although the peer never ended its direction; {desc}"));
+        }
+        o.probe("bridge-ok", 1);
+    }
+    if let Some((_, Err(_))) = &res {
+        o.probe("bridge-err", 1);
+        if !(l.read_err || l.write_err || l.flush_err || l.shutdown_err || peer_reset || s.task_end.borrow().is_some()) {
+            o.violate("C13:spurious-error", format!("the bridge completed with an error although no operation on either side failed; {desc}"));
+        }
+    }
+    if finishes > 1 {
+        o.violate("C13:duplicate-finish", format!("{finishes} Finish frames; {desc}"));
+    }
+    if finishes > 0 && !l.eof_returned {
+        o.violate("C13:finish-without-local-eof", format!("Finish was sent although the local side never reached end-of-stream; {desc}"));
+    }
+    if l.write_after_shutdown {
+        o.violate("C13:write-after-local-shutdown", format!("the bridge wrote to the local side after shutting it down; {desc}"));
+    }
+    // ---- an operation failed: the bridge completes with that error promptly (no later than quiescence,
+    //      without unrelated traffic having to wake it)
+    if !done {
+        if l.read_err {
+            o.violate("C13:read-error-not-propagated", format!("a read on the local side returned an error but the bridge is still pending at quiescence; {desc}"));
+        }
+        if l.write_err {
+            o.violate("C13:write-error-not-propagated", format!("a write on the local side returned an error but the bridge is still pending at quiescence; {desc}"));
+        }
+        if l.flush_err {
+            o.violate("C13:flush-error-not-propagated", format!("a flush on the local side returned an error but the bridge is still pending at quiescence; {desc}"));
+        }
+        if l.shutdown_err {
+            o.violate("C13:shutdown-error-not-propagated", format!("shutdown of the local side returned an error but the bridge is still pending at quiescence; {desc}"));
+        }
+        // both directions ended cleanly and nothing is in the way: it must have completed
+        let local_all_sent = l.eof_returned && got_from_a.len() == l.produced.len();
+        let peer_all_written = peer_finished && l.written.len() == sent_by_peer.len();
+        if local_all_sent && peer_all_written && !l.read_pending_forever {
+            o.violate("C13:not-completed", format!("both directions have ended and all data was relayed but the bridge is still pending at quiescence; {desc}"));
+        }
+        // half-close propagation
+        if l.eof_returned && finishes == 0 && !peer_reset && got_from_a.len() == l.produced.len() && a_reset == 0 {
+            o.violate("C13:local-eof-not-propagated", format!("the local side reached end-of-stream, everything before it was sent, but no Finish followed; {desc}"));
+        }
+        if peer_finished && l.written.len() == sent_by_peer.len() && l.shutdown_calls == 0 {
+            o.violate("C13:peer-finish-not-propagated", format!("the peer finished and all its data was written locally but the local side was never shut down; {desc}"));
+        }
+        o.probe("bridge-legitimately-pending", 1);
+    }
+    if l.read_err {
+        o.probe("fault:local-read-error", 1);
+    }
+    if l.write_err {
+        o.probe("fault:local-write-error", 1);
+    }
+    if l.flush_err {
+        o.probe("fault:local-flush-error", 1);
+    }
+    if l.shutdown_err {
+        o.probe("fault:local-shutdown-error", 1);
+    }
+    if peer_reset {
+        o.probe("fault:peer-reset", 1);
+    }
+    // coalescing: fewer Push frames than chunks consumed
+    let chunks = plan.rs.iter().filter(|r| matches!(r, R::Chunk(_))).count() as u64;
+    if pushes_from_a > 0 && pushes_from_a < chunks && got_from_a.len() == l.produced.len() {
+        o.probe("bridge-coalesced-chunks", 1);
+    }
+    if plan.ack_mode != 0 && got_from_a.len() < l.produced.len() + 0 && pushes_from_a == granted {
+        o.probe("bridge-credit-starved", 1);
+    }
+    o.nontrivial = !l.written.is_empty() && !got_from_a.is_empty();
+    o.note = desc;
+    o
+}
+
+// =================================================================== C16 (keepalive, virtual time)
+
+#[derive(Serialize, Deserialize, Clone, Debug)]
+pub struct C16Plan {
+    /// keepalive interval in ms; 0 = disabled
+    pub interval_ms: u64,
+    /// requested keepalive timeout in ms (clamped up to the interval by the builder); 0 = none
+    pub timeout_ms: u64,
+    /// answer delay in ms for ping k; None = this and every later ping stay unanswered (the peer is dead)
+    pub delays: Vec<Option<u64>>,
+    /// delay for pings beyond the list; None = dead from then on
+    pub tail: Option<u64>,
+    pub link: LinkCfg,
+    pub weights: [u32; NCLS],
+}
+
+pub fn run_c16(plan: &C16Plan, sched: &Sched, record: bool) -> Outcome {
+    block_on(run_c16_async(plan.clone(), sched.clone(), record))
+}
+async fn run_c16_async(plan: C16Plan, sched: Sched, record: bool) -> Outcome {
+    use penguin_mux::config::Options;
+    use penguin_mux::timing::OptionalDuration;
+    let ms = Duration::from_millis;
+    let (i_ms, t_req) = (plan.interval_ms, plan.timeout_ms);
+    let od = |x: u64| if x == 0 { OptionalDuration::NONE } else { OptionalDuration::from(ms(x)) };
+    // documented order: interval first, then timeout (so that T < I is clamped)
+    let opts = Options::new().keepalive_interval(od(i_ms)).keepalive_timeout(od(t_req));
+    let cfg = EpCfg::default();
+    let mut s = setup(&cfg, opts, &plan.link, plan.weights, &sched, record, RxPolicy { ack_pushes: false, ack_req_connects: None }, Rc::new(RefCell::new(vec![])));
+    s.link.lock().unwrap().auto_pong = [true, false];
+    let t0 = s.link.lock().unwrap().t0;
+    // pending operations that must observe the end of the connection
+    let dg_end: Rc<RefCell<Option<String>>> = Default::default();
+    let acc_end: Rc<RefCell<Option<String>>> = Default::default();
+    {
+        let (m, de) = (s.mux.clone(), dg_end.clone());
+        s.sim.spawn("dgrx", CLS_OTHER, async move {
+            let r = m.get_datagram().await;
+            *de.borrow_mut() = Some(format!("{:?}", r.map(|_| ())));
+        });
+        let (m, ae) = (s.mux.clone(), acc_end.clone());
+        s.sim.spawn("acceptor", CLS_OTHER, async move {
+            let r = m.accept_stream_channel().await;
+            *ae.borrow_mut() = Some(format!("{:?}", r.map(|_| ())));
+        });
+    }
+    // the peer's pong policy
+    let sp = s.sim.spawner();
+    {
+        let (raw, peer, plan2, link) = (s.raw.clone(), s.peer.clone(), plan.clone(), s.link.clone());
+        s.sim.spawn("ponger", CLS_OTHER, async move {
+            let mut seen = 0usize;
+            loop {
+                let npings = peer.borrow().got.iter().filter(|(_, w)| matches!(w, Wire::Ping)).count();
+                while seen < npings {
+                    let d = plan2.delays.get(seen).copied().unwrap_or(plan2.tail);
+                    seen += 1;
+                    match d {
+                        None => {
+                            // a dead peer: the transport returns nothing any more, not even Close
+                            link.lock().unwrap().set_hold(1, true);
+                        }
+                        Some(d) => {
+                            let raw = raw.clone();
+                            sp.spawn("pong", CLS_OTHER, async move {
+                                tokio::time::sleep(Duration::from_millis(d)).await;
+                                raw.borrow_mut().send_msg(penguin_mux::ws::Message::Pong);
+                            });
+                        }
+                    }
+                }
+                if !wait_until(&peer, |p| p.got.iter().filter(|(_, w)| matches!(w, Wire::Ping)).count() > seen).await {
+                    break;
+                }
+            }
+        });
+    }
+    let t_ms = if t_req == 0 { 0 } else { t_req.max(i_ms) };
+    let horizon = ms(if i_ms == 0 { 600_000 } else { (i_ms * 50).max(t_ms + 12 * i_ms) } + 7);
+    let end = s.sim.run(5_000_000, horizon).await;
+    let mut o = Outcome { digest: s.sim.digest.0 ^ s.seq.now(), steps: s.sim.steps, decisions: s.sim.decisions.take().unwrap_or_default(), sim_ms: horizon.as_millis() as u64, ..Default::default() };
+    if end != End::Quiescent {
+        o.violate("HARNESS:step-budget", "no quiescence".into());
+        return o;
+    }
+    let l = s.link.lock().unwrap();
+    let pings: Vec<(u64, Duration)> = l.evs.iter().filter(|e| e.stage == Stage::Sent && e.from == 0 && matches!(&*e.w, Wire::Ping)).map(|e| (e.seq, e.t)).collect();
+    let pongs: Vec<(u64, Duration)> = l.evs.iter().filter(|e| e.stage == Stage::Consumed && e.from == 1 && matches!(&*e.w, Wire::Pong)).map(|e| (e.seq, e.t)).collect();
+    let te = s.task_end.borrow().clone();
+    let desc = format!("I={i_ms}ms T(requested)={t_req}ms T(effective)={t_ms}ms delays={:?} tail={:?} pings={} pongs={} task_end={:?}", plan.delays, plan.tail, pings.len(), pongs.len(), te.as_ref().map(|t| (t.1.clone(), t.2)));
+    o.note = desc.clone();
+    let _ = t0;
+    // ---- disabled: no ping is sent and no timeout ever occurs
+    if i_ms == 0 {
+        if !pings.is_empty() {
+            o.violate("C16:ping-although-disabled", format!("keepalive disabled but {} Ping(s) were sent; {desc}", pings.len()));
+        }
+        if te.is_some() {
+            o.violate("C16:ended-although-disabled", format!("keepalive disabled but the connection task returned; {desc}"));
+        }
+        o.probe("keepalive-disabled", 1);
+        o.nontrivial = true;
+        return o;
+    }
+    // ---- a ping is sent every I (exact virtual time)
+    for (k, (_, t)) in pings.iter().enumerate() {
+        if *t != ms(i_ms * k as u64) {
+            o.violate("C16:ping-schedule", format!("ping {k} was sent at {t:?}, expected {:?}; {desc}", ms(i_ms * k as u64)));
+            break;
+        }
+    }
+    let (ti, tt) = (ms(i_ms), ms(t_ms));
+    // which pings were answered within T (by construction of the pong policy)
+    let dead_from = (0..pings.len().max(plan.delays.len()) + 1).find(|k| plan.delays.get(*k).copied().unwrap_or(plan.tail).is_none());
+    let max_delay = (0..pings.len()).filter_map(|k| plan.delays.get(k).copied().unwrap_or(plan.tail)).max().unwrap_or(0);
+    let live_within_t = dead_from.is_none_or(|d| d >= pings.len() + 1) && (t_ms == 0 || max_delay <= t_ms);
+    match &te {
+        Some((tseq, res, tau)) => {
+            if !res.contains("KeepaliveTimeout") {
+                o.violate("C16:wrong-end", format!("the connection task returned {res}, not a keepalive timeout; {desc}"));
+                return o;
+            }
+            if t_ms == 0 {
+                o.violate("C16:timeout-without-timeout-configured", format!("no keepalive timeout is configured but the task returned KeepaliveTimeout; {desc}"));
+                return o;
+            }
+            // the fatal tick = the instant the task decided; it is the last virtual instant at which a ping was due
+            let tau = *tau;
+            // last pong consumed before the decision, in event order
+            // the decision precedes the Close the teardown sends; pongs consumed later (while winding
+            // down, possibly at the same virtual instant) came too late for it
+            let dseq = l.evs.iter().find(|e| e.stage == Stage::Sent && e.from == 0 && matches!(&*e.w, Wire::Close)).map(|e| e.seq).unwrap_or(*tseq);
+            let last = pongs.iter().filter(|(q, _)| *q < dseq).map(|(_, t)| *t).filter(|t| *t <= tau).last().unwrap_or(Duration::ZERO);
+            // a pong consumed at the very instant of the fatal tick but after it in event order does not count
+            let decided_at = pings.last().map(|p| p.1 + ti).filter(|t| *t <= tau).unwrap_or(tau);
+            let age = decided_at.saturating_sub(last);
+            o.probe("keepalive-timeout-fired", 1);
+            if live_within_t {
+                // S2: every ping was answered within T, yet the endpoint timed out
+                if age > tt {
+                    o.violate("C16:timeout-live-peer:last-pong-older-than-T", format!("every ping was answered within T but the gap between pongs exceeded T: last pong at {last:?}, timeout decided at {decided_at:?}; {desc}"));
+                } else {
+                    o.violate("C16:timeout-live-peer:last-pong-within-T", format!("every ping was answered within T and the last pong ({last:?}) was younger than T at the decision ({decided_at:?}), yet the endpoint timed out; {desc}"));
+                }
+            } else {
+                // S1: no earlier than T and no later than T + I after the last pong (or start-up)
+                if age < tt {
+                    o.violate("C16:timeout-too-early", format!("timeout decided at {decided_at:?}, only {age:?} after the last pong ({last:?}); T = {tt:?}; {desc}"));
+                }
+                if age > tt + ti {
+                    o.violate("C16:timeout-too-late", format!("timeout decided at {decided_at:?}, {age:?} after the last pong ({last:?}); T + I = {:?}; {desc}", tt + ti));
+                }
+            }
+            // ---- and everything pending observes the end (C08's ledger)
+            if dg_end.borrow().is_none() {
+                let m = format!("get_datagram is still pending after the keepalive timeout; {desc}");
+                o.violate("C16:pending-after-timeout", m.clone());
+                o.violate("C08:pending:get_datagram", m);
+            }
+            if acc_end.borrow().is_none() {
+                let m = format!("accept_stream_channel is still pending after the keepalive timeout; {desc}");
+                o.violate("C16:pending-after-timeout", m.clone());
+                o.violate("C08:pending:accept", m);
+            }
+        }
+        None => {
+            // a dead peer must be detected by the horizon
+            if let Some(d) = dead_from {
+                if d < pings.len() && t_ms > 0 {
+                    o.violate("C16:dead-peer-undetected", format!("the peer stopped answering from ping {d} on but no keepalive timeout occurred before the horizon; {desc}"));
+                }
+            }
+            // a peer answering later than T is not live either: the timeout must fire (S1 upper bound)
+            if dead_from.is_none() && t_ms > 0 && max_delay > t_ms + i_ms {
+                o.violate("C16:late-peer-undetected", format!("pings were answered only after more than T + I but no timeout occurred; {desc}"));
+            }
+            if pings.len() < 40 {
+                o.violate("C16:ping-schedule", format!("only {} pings were sent before the horizon; {desc}", pings.len()));
+            }
+            if live_within_t {
+                o.probe("live-peer-never-timed-out", 1);
+            }
+        }
+    }
+    if t_req > 0 && t_req < i_ms {
+        o.probe("timeout-clamped-to-interval", 1);
+    }
+    if t_req == 0 {
+        o.probe("pings-without-timeout", 1);
+    }
+    o.nontrivial = pings.len() >= 3;
+    o
+}
